@@ -56,7 +56,7 @@ pub fn profile3(prop: &str) -> Profile3 {
         "C11" => Profile3 { monitors: RECORDS, asym: true, toggle: 0.02, big_batch: 0.004, long_run: 0.004, ..base },
         // per-asset environment-level queries too: cached level-2 snapshot and recorded histories of every asset
         "C14" => Profile3 { monitors: BELIEF | SHADOW | RECORDS | INVISIBLE, force_market: true, market_share: 1.0, asym: true, big_batch: 0.003, long_run: 0.002, ..base },
-        "C05" => Profile3 { monitors: BELIEF | TIE_CLASSIFY, overflow: true, always_steer: true, market_share: 0.25, toggle: 0.0, start_halted: 0.0, max_steps: 12, ..base },
+        "C05" => Profile3 { monitors: BELIEF | TIE_CLASSIFY | BOOKSNAP, overflow: true, always_steer: true, market_share: 0.25, toggle: 0.0, start_halted: 0.0, max_steps: 12, ..base },
         "C12" => Profile3 { monitors: GRID | INVISIBLE, offgrid: 0.25, drain: false, ..base },
         "C13" => Profile3 { monitors: BELIEF | HALT, toggle: 0.35, start_halted: 0.4, ..base },
         _ => base,
